@@ -215,3 +215,52 @@ theorem get?_of_mem_nodup {l : List (κ × α)} {k : κ} {v : α} (hn : (keys l)
 
 end AL
 end DefconModel
+
+namespace DefconModel
+namespace AL
+variable {κ : Type} {α : Type} [DecidableEq κ]
+
+theorem contains_iff_get? (l : List (κ × α)) (k : κ) : contains l k = true ↔ ∃ v, get? l k = some v := by
+  unfold contains; cases get? l k <;> simp
+
+theorem contains_false_iff (l : List (κ × α)) (k : κ) : contains l k = false ↔ get? l k = none := by
+  unfold contains; cases get? l k <;> simp
+
+theorem get?_erase (l : List (κ × α)) (k k2 : κ) (h : (keys l).Nodup) :
+    get? (erase l k) k2 = if k = k2 then none else get? l k2 := by
+  by_cases e : k = k2
+  · subst e; simp [get?_erase_self_of_nodup _ _ h]
+  · simp [e]
+
+theorem get?_map_val {β : Type} (f : α → β) (l : List (κ × α)) (k : κ) :
+    get? (l.map (fun p => (p.1, f p.2))) k = (get? l k).map f := by
+  induction l with
+  | nil => rfl
+  | cons p r ih =>
+    obtain ⟨k', v⟩ := p
+    by_cases h : k' = k <;> simp [h, ih]
+
+theorem keys_map_val {β : Type} (f : α → β) (l : List (κ × α)) :
+    keys (l.map (fun p => (p.1, f p.2))) = keys l := by
+  simp [keys, List.map_map, Function.comp_def]
+
+theorem get?_foldl_erase (d : List (κ × α)) (ns : List κ) (k : κ) (h : (keys d).Nodup) :
+    get? (ns.foldl (fun d n => erase d n) d) k = if k ∈ ns then none else get? d k := by
+  induction ns generalizing d with
+  | nil => simp
+  | cons n ns ih =>
+    simp only [List.foldl_cons]
+    rw [ih _ (nodup_keys_erase _ _ h), get?_erase _ _ _ h]
+    by_cases e : n = k
+    · subst e; simp
+    · have e' : ¬ k = n := fun x => e x.symm
+      simp [e, e']
+
+theorem nodup_keys_foldl_erase (d : List (κ × α)) (ns : List κ) (h : (keys d).Nodup) :
+    (keys (ns.foldl (fun d n => erase d n) d)).Nodup := by
+  induction ns generalizing d with
+  | nil => exact h
+  | cons n ns ih => exact ih _ (nodup_keys_erase _ _ h)
+
+end AL
+end DefconModel
